@@ -501,6 +501,58 @@ def check_shared_components(acc):
     acc.outcome('shared-components')
 
 
+def check_template_factories(acc):
+    """One stock template factory (Mako, Ashes) shared by two applications, templates of different types: whatever is
+    bound through it later - successfully, or by an add() that then fails - every route bound earlier keeps answering
+    like a freshly built twin."""
+    import itertools
+    import shutil
+    import tempfile
+    from clastic import Application
+    tmpd = tempfile.mkdtemp(prefix='c11-tmpl-')
+    try:
+        for name, text in (('page.html', '<html><body>hello ${name}</body></html>'), ('notes.txt', 'hello ${name}'),
+                           ('data.json', '{"hello": "${name}"}'), ('page.dust', '<b>{name}</b>')):
+            with open(os.path.join(tmpd, name), 'w') as f:
+                f.write(text)
+        from clastic.render.mako_templates import MakoRenderFactory
+
+        def page():
+            return {'name': 'world'}
+
+        def needs_db(db_zq):
+            return {'name': db_zq}
+
+        def snap(app, path):
+            r = wsgi.call(app, path, 'GET')
+            return (r.status, (r.header('Content-Type') or '') if r.headers else None, r.body, repr(r.raised) if r.raised else None)
+        names = ['page.html', 'notes.txt', 'data.json']
+        for first, later, how in itertools.product(names, names, ('add', 'failing-add', 'other-application', 'failing-other-application')):
+            acc.transitions += 3
+            acc.validated += 1
+            factory = MakoRenderFactory(tmpd)
+            site = Application([('/', page, first)], render_factory=factory)
+            want = snap(Application([('/', page, first)], render_factory=MakoRenderFactory(tmpd)), '/')
+            try:
+                if how == 'add':
+                    site.add(('/later', page, later))
+                elif how == 'failing-add':
+                    site.add(('/later', needs_db, later))
+                elif how == 'other-application':
+                    Application([('/', page, later)], render_factory=factory)
+                else:
+                    Application([('/', needs_db, later)], render_factory=factory)
+            except NameError:
+                pass
+            got = snap(site, '/')
+            if got != want:
+                acc.violation('C11:template-factory:mako', 'route rendered by %r through a shared MakoRenderFactory; after %s with %r it answers '
+                              '%r, a fresh twin %r' % (first, how, later, got[:2], want[:2]), {'part': 'template-factories'})
+                return
+    finally:
+        shutil.rmtree(tmpd, ignore_errors=True)
+
+
 def check_cline_apps(acc):
     """The bottle-like spelling: every registering method of a Cline application adds to that application and to no
     other - neither to a second Cline nor to the module-level default application behind the bare decorators."""
@@ -721,6 +773,8 @@ def shard(tier, i, n, seed):
         check_shared_components(acc)
     if i == 6 % n:
         check_cline_apps(acc)
+    if i == 7 % n:
+        check_template_factories(acc)
     for k, hist in enumerate(states):
         if k % n != i:
             continue
@@ -763,6 +817,9 @@ def replay(case):
     acc = common.Acc()
     if case.get('part') == 'shared-components':
         check_shared_components(acc)
+        return (False, acc.violations[0]['desc'][:3000]) if acc.violations else (True, 'ok')
+    if case.get('part') == 'template-factories':
+        check_template_factories(acc)
         return (False, acc.violations[0]['desc'][:3000]) if acc.violations else (True, 'ok')
     if case.get('part') == 'cline':
         check_cline_apps(acc)
